@@ -367,6 +367,21 @@ func checkC07(c *Ctx) error {
 			jobs = append(jobs, conf)
 		}
 	}
+	// (c4) many cycles at once: complete digraphs on 5 and 6 services (84 and 409 elementary cycles) next to an independent
+	// two-cycle of services and one of parameters: however long the report gets, every element on a cycle is shown in it
+	for _, kn := range []int{5, 6} {
+		conf := mixedGraphConfigN(kn, func(i, j int) int {
+			if i != j {
+				return ckAt
+			}
+			return ckNone
+		}, false)
+		conf.Services = append(conf.Services,
+			cfg.Service{Name: "zz.left", Constructor: cfg.P("pa.New"), Args: []cfg.Val{cfg.Str("@zz.right")}},
+			cfg.Service{Name: "zz.right", Constructor: cfg.P("pa.New"), Fields: []cfg.KV{{K: "F1", V: cfg.Str("@zz.left")}}})
+		conf.Params = append(conf.Params, cfg.KV{K: "zp", V: cfg.Str("a%zq%")}, cfg.KV{K: "zq", V: cfg.Str("%zp%b")}, cfg.KV{K: "alone", V: cfg.Str("%alone%")})
+		jobs = append(jobs, conf)
+	}
 	// (d) random sparse graphs
 	nr := c.Pick(600, 8000)
 	skipped := 0
